@@ -48,6 +48,19 @@ pub assume_specification<T, F: FnOnce(T) -> bool> [Option::<T>::is_some_and] (o:
 /// D2/D3 helper: the i-th element of a consumed Vec / array / slice (what `into_iter()` would move out)
 #[verifier::external_body]
 pub fn verif_elem<T>(v: &Vec<T>, i: usize) -> (r: T) requires i < v@.len() ensures r == v@[i as int] { unimplemented!() }
+/// D2 helper: the same for any indexable source (Vec or array)
+pub trait VerifSeq<T> {
+    spec fn vseq(&self) -> Seq<T>;
+    fn velem(&self, i: usize) -> (r: T) requires i < self.vseq().len() ensures r == self.vseq()[i as int];
+}
+impl<T> VerifSeq<T> for Vec<T> {
+    open spec fn vseq(&self) -> Seq<T> { self@ }
+    #[verifier::external_body] fn velem(&self, i: usize) -> (r: T) { unimplemented!() }
+}
+impl<T, const N: usize> VerifSeq<T> for [T; N] {
+    open spec fn vseq(&self) -> Seq<T> { self@ }
+    #[verifier::external_body] fn velem(&self, i: usize) -> (r: T) { unimplemented!() }
+}
 #[verifier::external_body]
 pub fn verif_elem_arr<T, const N: usize>(v: &[T; N], i: usize) -> (r: T) requires i < N ensures r == v@[i as int] { unimplemented!() }
 // ---- std collections used as record fields (ASSUMED model: a finite map view) ----
